@@ -216,7 +216,7 @@ type c02bad struct {
 }
 
 func TestVX_C02(t *testing.T) {
-	r := vx.Begin("C02", "sign-exact", "SignHashed on deviation-bounded nonce streams: every sequence of <=D (quick 2, thorough 3) rejected candidates from {K0 (k=0), Kn, Kn1, Kmax, R0 (e solved: r=0), RK (e solved: r+k=n), S0 (d solved: s=0)} - at most one e-solved and one d-solved per stream - followed by an acceptable k, x key classes {1,2,n-3,n-2,1-byte,31-byte,seeded} x digest classes {0,1,n-1,n,2^256-1,seeded}; an accepted candidate whose r has a leading zero byte, alone and after each kind of rejection (R0/RK/S0 and pairs); keys of every encoding length 1..31 x {ff.., 01 00.., 00..01, 00 ff.., prefix of n-1, seeded} and 32-byte keys with 1..31 leading zero bytes; runs of m identical (and mixed) rejected candidates, m in {3..1000} [thorough: 4096, 65536]; oracle sm2ref.Sign on the same stream (equal r,s byte for byte, equal bytes consumed). Invalid keys {empty, zero in 1/31/32 bytes, n-1, n, n+1, 2^256-1, 33 bytes}: error, nil r,s, nothing drawn. Shape=(stream kinds, key class, digest class)")
+	r := vx.Begin("C02", "sign-exact", "SignHashed on deviation-bounded nonce streams: every sequence of <=D (quick 2, thorough 3) rejected candidates from {K0 (k=0), Kn, Kn1, Kmax, R0 (e solved: r=0), RK (e solved: r+k=n), S0 (d solved: s=0)} - at most one e-solved and one d-solved per stream - followed by an acceptable k, x key classes {1,2,n-3,n-2,1-byte,31-byte,seeded} x digest classes {0,1,n-1,n,2^256-1,seeded}; an accepted candidate whose r has a leading zero byte, alone and after each kind of rejection (R0/RK/S0 and pairs); keys of every encoding length 1..31 x {ff.., 01 00.., 00..01, 00 ff.., prefix of n-1, seeded} and 32-byte keys with 1..31 leading zero bytes; one key / digest buffer reloaded with other keys between calls; a witness nonce with x1 within 2^224 of 2^256 with digests around 2n-x1 (e + x1 >= 2n); runs of m identical (and mixed) rejected candidates, m in {3..1000} [thorough: 4096, 65536]; oracle sm2ref.Sign on the same stream (equal r,s byte for byte, equal bytes consumed). Invalid keys {empty, zero in 1/31/32 bytes, n-1, n, n+1, 2^256-1, 33 bytes}: error, nil r,s, nothing drawn. Shape=(stream kinds, key class, digest class)")
 	defer r.End()
 	selfCheck()
 	if raw, ok := vx.Replay("sign-exact"); ok {
@@ -375,6 +375,70 @@ func TestVX_C02(t *testing.T) {
 			}
 			c.Kinds = []string{fmt.Sprintf("%s x%d", kd, m), "OK"}
 			c02eval(r, c)
+		}
+	}
+	// (f) a nonce whose x1 = x([k]G) lies within 2^224 of the top (x1 > 2n - 2^256), found once by a 2^32 search and kept
+	// as a witness (checked here against the reference): only for such a nonce can e + x1 reach 2n, so that (e + x1) mod n
+	// needs more than one subtraction. Digests around 2n - x1 and the largest digest.
+	if vx.MineIdx(2) {
+		kW := vx.UnHex("243f6a8885a308d313198a2e03707344a4093822299f31d0082ffa9906293036")
+		x1 := sm2ref.BaseMul(bi(kW)).X
+		twoN := new(big.Int).Lsh(bigN, 1)
+		lim := new(big.Int).Lsh(bigOne, 256)
+		if new(big.Int).Add(x1, new(big.Int).Sub(lim, bigOne)).Cmp(twoN) < 0 {
+			panic("harness: the witness nonce does not have a top-range x1")
+		}
+		base := new(big.Int).Sub(twoN, x1)
+		dW := modN(bi(vx.Fill("c02witnessd", 32)))
+		for off := int64(-2); off <= 2; off++ {
+			for _, ev := range []*big.Int{new(big.Int).Add(base, big.NewInt(off)), new(big.Int).Sub(lim, big.NewInt(1+off*off))} {
+				if ev.Sign() < 0 || ev.Cmp(lim) >= 0 {
+					continue
+				}
+				r.Eval(1)
+				e := b32(ev)
+				k2 := b32(big.NewInt(0x3333))
+				want, werr := sm2ref.Sign(stream(kW, k2), dW, e)
+				rd := stream(kW, k2)
+				var rr, ss []byte
+				var err error
+				kind, msg := vx.Try(func() { rr, ss, err = sm2.SignHashed(rd, b32(dW), e) })
+				cs := c02case{Kinds: []string{"top-x1", "OK"}, Key: "seeded", E: fmt.Sprintf("2n-x1%+d", off), D: vx.Hex(b32(dW)), Digest: vx.Hex(e), Stream: []string{vx.Hex(kW), vx.Hex(k2)}}
+				if werr != nil {
+					panic(werr)
+				}
+				if kind != "" || err != nil {
+					r.Violation("sign:top-x1:fail", fmt.Sprintf("%s %v", msg, err), cs)
+				} else if !bytes.Equal(rr, want.R) || !bytes.Equal(ss, want.S) || rd.pos != want.Consumed {
+					r.Violation("sign:top-x1:wrong", fmt.Sprintf("nonce with x1 near 2^256 and digest %x: SignHashed returned (%x,%x) after %d bytes, GM/T 0003.2 gives (%x,%x) after %d", e, rr, ss, rd.pos, want.R, want.S, want.Consumed), cs)
+				}
+				r.Shape(fmt.Sprintf("top-x1:%d:%x", off, ev.Bit(255)))
+			}
+		}
+	}
+	// (e) one caller buffer serves several keys / digests in turn (a key slot reloaded between calls): every call signs
+	// with what the buffer holds at the time of the call
+	if vx.MineIdx(1) {
+		privBuf, eBuf := make([]byte, 32), make([]byte, 32)
+		ks := b32(modN(bi(vx.Fill("c02reusek", 32))))
+		for round := 0; round < 2; round++ {
+			for i := 0; i < 4; i++ {
+				r.Eval(1)
+				d := modN(bi(vx.Fill(fmt.Sprintf("c02reused%d", i), 32)))
+				copy(privBuf, b32(d))
+				copy(eBuf, vx.Fill(fmt.Sprintf("c02reusee%d", (i+round)%3), 32))
+				want, _ := sm2ref.Sign(stream(ks), d, append([]byte{}, eBuf...))
+				var rr, ss []byte
+				var err error
+				kind, msg := vx.Try(func() { rr, ss, err = sm2.SignHashed(stream(ks), privBuf, eBuf) })
+				cs := c02case{Kinds: []string{"OK"}, Key: fmt.Sprintf("reloaded-buffer:key%d:round%d", i, round), D: vx.Hex(privBuf), Digest: vx.Hex(eBuf), Stream: []string{vx.Hex(ks)}}
+				if kind != "" || err != nil {
+					r.Violation("sign:reloaded-buffer:fail", fmt.Sprintf("%s %v", msg, err), cs)
+				} else if !bytes.Equal(rr, want.R) || !bytes.Equal(ss, want.S) {
+					r.Violation("sign:reloaded-buffer:wrong", fmt.Sprintf("SignHashed with key #%d loaded into the buffer an earlier call used for another key returned (%x,%x), GM/T 0003.2 gives (%x,%x)", i, rr, ss, want.R, want.S), cs)
+				}
+				r.Shape(fmt.Sprintf("reloaded:%d:%d", i, round))
+			}
 		}
 	}
 	// invalid keys
